@@ -98,6 +98,13 @@ pub fn run(args: &Args) -> i32 {
             if let Some(w) = m.walls.first() {
                 m.overrides.walls.insert(w.id, bemodel::WallPropsOverrides { u_value: None });
             }
+            // several entries per map: their order in the text must not depend on anything but the ids
+            for (k, w) in m.windows.iter().enumerate().skip(1) {
+                m.overrides.windows.insert(w.id, bemodel::WinPropsOverrides { u_value: Some(1.0 + k as f32 * 0.1), f_shobst: None });
+            }
+            for (k, w) in m.walls.iter().enumerate().skip(1) {
+                m.overrides.walls.insert(w.id, bemodel::WallPropsOverrides { u_value: Some(0.3 + k as f32 * 0.01) });
+            }
         }
         // values one f32 step away from a serde default: a "skip if default" predicate must not take them for the default
         if i % 3 == 2 {
